@@ -150,10 +150,10 @@ PROPS.update({
         trusted_base=["the fact extractor /verif/go/extract (purely syntactic go/ast walk: tracked fields by name per file, locks by <expr>.mu.Lock/RLock/Unlock/RUnlock incl. defer, branch-insensitive lock sets merged by intersection, local aliases of maps/slices followed, helper entry lock sets for wouldCreateCycle/hasCycleDFS taken from the call site in register); it is sound only for these patterns",
                       "the Go memory model: accesses properly guarded by sync.Mutex/RWMutex or sync/atomic are race free", "sync.Mutex, sync.RWMutex, sync.Cond semantics as modelled in Ebu/Model/Locks.lean",
                       "the sqlite store and the durablestream store have no shared mutable Go state of their own (they delegate to database/sql and an HTTP client): not in the fact table"],
-        assumptions=["configuration setters complete before concurrent use (the property excludes them)", "deadlock freedom is carried by: callbacks run with no bus lock held + a single lock order (facts), the interleaving model of C02/C06/C07 under controlled schedules (a hang is reported there), and the stress watchdog; the one documented exception (a synchronous Sequential handler re-entering itself) is excluded from all generators"],
-        level_text="Proof (generic): a reachable RW mutex never has two goroutines holding it in conflicting modes, hence under the lock discipline no two goroutines can be positioned at conflicting non-atomic accesses to one location. Proof obligations on the CURRENT source, regenerated by the extractor on every run and evaluated by the kernel: every access to shared state (registry shards, lastOffset, ticket counters, in-flight counter, memory store, upcast registry, materializer, state store) holds its guard lock in the right mode; handlers/filters/hooks/error handlers are called with no bus lock held; store appends are serialised by storeMu; upcaster validation+insertion is one write-locked section; locks nest along one order; the shard index is always in range and equals the modulo. The race detector stress run only searches for a concrete witness when an obligation breaks (and runs as supporting validation).",
-        level_note="PARTIAL: soundness of the syntactic extractor and the Go memory model are trusted, not proved; deadlock freedom is not a theorem about the code but the conjunction of the lock-free-callback and lock-order obligations with what C02/C06/C07's controlled schedules and the stress watchdog exhibit.",
-        technique="Lean 4: RW-mutex invariant + discipline⇒no-race theorem; obligations `decide`d on a fact table regenerated from the Go source by a go/ast extractor; race-detector stress as witness search"),
+        assumptions=["configuration setters complete before concurrent use (the property excludes them)", "deadlock freedom: theorem `deadlock_free` about the interleaving model M2 (every program, any number of goroutines, every schedule; hypothesis = the one documented exception, stated as a rank on event types); the model is tied to the code by the controlled-scheduler correspondence of C02/C06/C07 (a hang is reported there), by the control-flow obligations `flow_*` on the regenerated skeleton of PublishContext / callHandlerWithContext, by the lock-free-callback and lock-order facts, and by the stress watchdog; the exception (a synchronous Sequential handler re-entering itself) is excluded from all generators"],
+        level_text="Proof (generic): a reachable RW mutex never has two goroutines holding it in conflicting modes, hence under the lock discipline no two goroutines can be positioned at conflicting non-atomic accesses to one location. Proof obligations on the CURRENT source, regenerated by the extractor on every run and evaluated by the kernel: every access to shared state (registry shards, lastOffset, ticket counters, in-flight counter, memory store, upcast registry, materializer, state store) holds its guard lock in the right mode; handlers/filters/hooks/error handlers are called with no bus lock held; store appends are serialised by storeMu; upcaster validation+insertion is one write-locked section; locks nest along one order; the shard index is always in range and equals the modulo. Proof (M2, every program, any number of goroutines, every schedule at yield-point granularity): DEADLOCK FREEDOM - while some goroutine is unfinished some goroutine can step - under the hypothesis that no synchronous Sequential handler publishes, directly or through other synchronously dispatched handlers, an event delivered back to itself (a rank on event types; the hypothesis is shown satisfiable and necessary by a reachable deadlock of two cross-publishing Sequential handlers). Obligations on the regenerated control-flow skeleton of the current source: snapshot under the read lock released before dispatch, in-flight count taken by the publisher and returned by a first-registered defer, ticket taken by the publisher / turn released by defer, Sequential mutex unlocked by defer. The race detector stress run only searches for a concrete witness when an obligation breaks (and runs as supporting validation).",
+        level_note="PARTIAL: soundness of the syntactic extractor and the Go memory model are trusted, not proved; deadlock freedom is a theorem about the model M2 (bus locks, Sequential mutexes, ticket lock, Wait), not about the code: the tie is the controlled-scheduler correspondence, the control-flow and lock obligations on the regenerated facts, and the stress watchdog; store-internal blocking (database/sql pool, HTTP) is outside M2 and covered by pubstore03 only.",
+        technique="Lean 4: RW-mutex invariant + discipline⇒no-race theorem + deadlock-freedom theorem of the interleaving model (well-founded waits-for measure); obligations decided by the kernel on fact tables and control-flow skeletons regenerated from the Go source by a go/ast extractor; race-detector stress as witness search"),
 })
 
 # C09's concurrent clause: an implementation-side judge under real concurrency (N publishes -> N records, increasing offsets)
